@@ -19,7 +19,8 @@ RULE = (
     "(thorough: full alphabet) in the consumer positions if / while / and-or; (iii) every atom without the "
     "prelude as only statement with and without trailing newline, and as last statement of an if body / def body at "
     "end of file; (iv) for every construct: every line prefix, every prefix ending inside the last line, and tab / "
-    "form-feed / CR variants (invalid inputs); (v) scaling family of the self-recursive rules, n in {1,5,50} "
+    "form-feed / CR variants (invalid inputs); (v) degenerate calls: 31 builtin / library functions the rules pattern-match on x 19 missing, empty or "
+    "ill-shaped argument lists in 4 positions; (vi) scaling family of the self-recursive rules, n in {1,5,50} "
     "(thorough: 400, 1100). entry points: format_code under default and safe (thorough: + keep_imports, preserve), "
     "and every rule on inputs that parse. oracle: no exception of any kind escapes, result is a str, < 60 s, and an "
     "input that is invalid even after dedent comes back equal up to whitespace. non-trivial = the call got past the "
@@ -48,6 +49,21 @@ SCALE = {
     "long_boolop": lambda n: "y = " + " and ".join("x > %d" % j for j in range(n + 1)) + "\n",
     "many_functions": lambda n: "".join("def f%d(a):\n    return a + %d\n" % (j, j % 3) for j in range(n)) + "print(f0(1))\n",
 }
+
+
+DEGENERATE_FUNCS = ["sum", "len", "sorted", "list", "set", "dict", "tuple", "range", "zip", "enumerate", "map", "filter", "iter",
+                    "next", "reversed", "min", "max", "any", "all", "isinstance", "print", "str", "int", "open", "super",
+                    "itertools.chain", "heapq.nsmallest", "np.matmul", "np.dot", "logging.info", "collections.defaultdict"]
+DEGENERATE_ARGS = ["", "[]", "()", "{}", "set()", "''", "None", "[x for x in []]", "(x for x in ())", "range()", "range(1, 2, 3, 4)",
+                   "*a", "**k", "*[], **{}", "[], []", "lambda: 0", "x=1", "[[]]", "..."]
+
+
+def degenerate_calls(func):
+    """Builtin / library calls the rules pattern-match on, with missing, empty or ill-shaped arguments (family added
+    after a sub-agent reported sum(range()) and sum([]) crashing the formatter)."""
+    for a in DEGENERATE_ARGS:
+        yield a, "import itertools, heapq, logging, collections\nimport numpy as np\ndef g(a, k, x):\n    return %s(%s)\nprint(%s(%s))\nfor i in %s(%s):\n    print(i)\nv = [j for j in %s(%s)]\n" % (
+            func, a, func, a, func, a, func, a)
 
 
 def position_variants(name):
@@ -90,6 +106,8 @@ def units(tier):
         yield {"t": "pos", "atom": n}
     for n in corpus.CONSTRUCTS:
         yield {"t": "invalid", "construct": n}
+    for f in DEGENERATE_FUNCS:
+        yield {"t": "degenerate", "func": f}
     for fam in SCALE:
         for n in (1, 5, 50) if tier == "quick" else (1, 5, 50, 400, 1100):
             yield {"t": "scale", "family": fam, "n": n}
@@ -188,6 +206,9 @@ def _inputs_of(unit):
     elif t == "invalid":
         for v, src in invalid_variants(unit["construct"]):
             yield ["invalid", unit["construct"], v], src, False
+    elif t == "degenerate":
+        for a, src in degenerate_calls(unit["func"]):
+            yield ["degenerate", unit["func"], a], src, True
     elif t == "scale":
         yield ["scale", unit["family"], unit["n"]], SCALE[unit["family"]](unit["n"]), unit["n"] <= 50
 
@@ -201,6 +222,8 @@ def resolve(label):
         return dict(position_variants(label[1]))[label[2]]
     if label[0] == "invalid":
         return dict(invalid_variants(label[1]))[label[2]]
+    if label[0] == "degenerate":
+        return dict(degenerate_calls(label[1]))[label[2]]
     if label[0] == "scale":
         return SCALE[label[1]](label[2])
     raise KeyError(label)
